@@ -7,7 +7,7 @@ From PV Require Import Lib.PyBase Spec.TdFloat Gen.Constants Model.Duration Gen.
 Import ListNotations.
 Open Scope Z_scope.
 Ltac Zify.zify_post_hook ::= Z.to_euclidean_division_equations.
-Set Default Timeout 20.
+Set Default Timeout 60.
 
 (* ------------------------------------------------------------------ Part 1: _divide_and_round *)
 (* q is a nearest integer to a / b, ties to even, stated without division:  |2 (a - q b)| <= |b|, and on a tie q is even *)
@@ -80,4 +80,329 @@ Proof.
   intros a b q Hb. split.
   - intros <-. apply divide_and_round_nearest; assumption.
   - intro H. eapply nearest_even_unique; eauto. apply divide_and_round_nearest; assumption.
+Qed.
+
+(* ------------------------------------------------------------------ Part 2: construction facts *)
+Definition DAYUS : Z := 86400000000.
+
+Lemma dur_new_native : forall d s us ms mi h w y mo r,
+  duration_new d s us ms mi h w y mo = Ok r ->
+  d_N r = ((((w * 7 + (d + YM y mo)) * 24 + h) * 60 + mi) * 60 + s) * 1000000 + ms * 1000 + us
+  /\ d_years r = y /\ d_months r = mo.
+Proof.
+  intros until r. intro H.
+  pose proof (C09Facts.native_value _ _ _ _ _ _ _ _ _ _ H) as NV.
+  apply td_of_int_args_spec in NV. destruct NV as [NV _].
+  pose proof (years_months_signature _ _ _ _ _ _ _ _ _ _ H) as (Y & M & _).
+  unfold YM. repeat split; assumption.
+Qed.
+
+Lemma dur_of_us_native : forall u r, dur_of_us u = Ok r -> d_N r = u /\ d_years r = 0 /\ d_months r = 0.
+Proof.
+  intros u r H. unfold dur_of_us in H. apply dur_new_native in H. unfold YM in H. destruct H as (A & B & C).
+  split; [rewrite A; ring | split; assumption].
+Qed.
+
+Lemma duration_new_fsec_inv : forall x y mo r,
+  duration_new_fsec x y mo = Ok r ->
+  exists n0, td_us_of_float_seconds x = Ok n0 /\ d_N r = n0 + YM y mo * DAYUS /\ d_years r = y /\ d_months r = mo.
+Proof.
+  intros x y mo r H. unfold duration_new_fsec in H.
+  destruct (td_us_of_float_seconds x) as [n0|e] eqn:E; [|discriminate]. cbn [bind] in H.
+  destruct (td_in_range _) eqn:R; [|discriminate].
+  destruct (float_pipeline _ _) as [[total [[m micro] it]]|e] eqn:F; [|discriminate]. cbn [bind] in H.
+  inversion H; subst; clear H. exists n0. cbn [d_N d_years d_months].
+  unfold YM, DAYS_PER_Y, DAYS_PER_M, US_PER_DAY, DAYUS. repeat split; reflexivity.
+Qed.
+
+(* a Duration whose stored (_days, _seconds, _microseconds) hold exactly its native length: what Duration.__new__ produces for
+   a Duration without years / months while the float normalisation is exact (C09: |N| < 2^33 s) *)
+Definition exact0 (d : dur) : Prop := py_Duration_to_microseconds d = d_N d.
+(* ... and in general: the stored fields hold the native length minus the year / month days *)
+Definition exact_ym (d : dur) : Prop :=
+  py_Duration_to_microseconds d = d_N d - YM (d_years d) (d_months d) * DAYUS /\ d_weeks d * 7 + d_rdays d = d_days d.
+
+Lemma to_microseconds_exact_dur : forall N total y mo sig, exact_ym (exact_dur N total y mo sig).
+Proof.
+  intros. unfold exact_ym, py_Duration_to_microseconds, exact_dur, DAYUS. cbn [d_days d_seconds d_micro d_N d_years d_months d_weeks d_rdays].
+  set (R := N - YM y mo * 86400000000).
+  pose proof (skeleton_seconds R) as (S1 & _). pose proof (skeleton_days R) as (D1 & _).
+  split; [|exact D1].
+  transitivity ((days_of R * 86400 + secs_of R) * 1000000 + micro_of R); [ring | exact S1].
+Qed.
+
+Lemma to_microseconds_constructed : float_split_exact_on_D9 ->
+  forall d s us ms mi h w y mo r,
+  duration_new d s us ms mi h w y mo = Ok r -> D9 (d_N r) (YM y mo * 86400) -> exact_ym r.
+Proof.
+  intros Hs d s us ms mi h w y mo r H HD.
+  pose proof (C09Facts.native_value _ _ _ _ _ _ _ _ _ _ H) as NV. fold (YM y mo) in NV.
+  destruct (duration_new_exact_partial Hs _ _ _ _ _ _ _ _ _ _ NV HD) as [total E].
+  rewrite E in H. inversion H; subst. apply to_microseconds_exact_dur.
+Qed.
+
+Lemma exact_ym_0 : forall d, exact_ym d -> d_years d = 0 -> d_months d = 0 -> exact0 d.
+Proof. intros d [A _] Y M. unfold exact0. rewrite A, Y, M. unfold YM. ring. Qed.
+
+(* ------------------------------------------------------------------ Part 3: the integer operators *)
+Lemma bind_RDur_inv : forall (x : result dur) r, bind x (fun d => Ok (RDur d)) = Ok (RDur r) -> x = Ok r.
+Proof. intros [d|e] r H; cbn in H; [inversion H; reflexivity | discriminate]. Qed.
+
+(* -x : years, months and every stored component negated; the native length is negated *)
+Lemma neg_spec : forall d r, dur_neg d = Ok r ->
+  d_years r = - d_years d /\ d_months r = - d_months d
+  /\ d_N r = - (((d_weeks d * 7 + d_rdays d) * 86400 + d_seconds d) * 1000000 + d_micro d + YM (d_years d) (d_months d) * DAYUS)
+  /\ (exact_ym d -> d_N r = - d_N d).
+Proof.
+  intros d r H. unfold dur_neg in H. apply dur_new_native in H.
+  unfold py_Duration_neg_self_days, py_Duration_neg_self_seconds, py_Duration_neg_self_microseconds,
+         py_Duration_neg_self_weeks, py_Duration_neg_self_years, py_Duration_neg_self_months in H.
+  destruct H as (A & B & C). unfold YM, DAYUS in *.
+  assert (A' : d_N r = - (((d_weeks d * 7 + d_rdays d) * 86400 + d_seconds d) * 1000000 + d_micro d
+                          + (d_years d * 365 + d_months d * 30) * 86400000000)) by (rewrite A; ring).
+  repeat split; try assumption.
+  intros [E1 E2]. unfold py_Duration_to_microseconds, YM, DAYUS in E1. rewrite A'. rewrite E2. lia.
+Qed.
+
+(* x // k : every part floor-divided *)
+Lemma floordiv_int_spec : forall d k r, dur_floordiv d (VInt k) = Ok (RDur r) ->
+  k <> 0 /\ d_years r = d_years d / k /\ d_months r = d_months d / k
+  /\ d_N r = py_Duration_to_microseconds d / k + YM (d_years d / k) (d_months d / k) * DAYUS.
+Proof.
+  intros d k r H. unfold dur_floordiv in H. destruct (k =? 0) eqn:K; [discriminate|].
+  apply bind_RDur_inv in H. apply dur_new_native in H.
+  unfold py_Duration_floordiv_int_microseconds, py_Duration_floordiv_int_years, py_Duration_floordiv_int_months in H. cbv zeta in H.
+  destruct H as (A & B & C). split; [apply Z.eqb_neq; exact K|]. repeat split; try assumption.
+  rewrite A. unfold DAYUS. ring.
+Qed.
+
+Lemma floordiv_int_exact : forall d k r, exact0 d -> d_years d = 0 -> d_months d = 0 ->
+  dur_floordiv d (VInt k) = Ok (RDur r) -> d_N r = d_N d / k /\ d_years r = 0 /\ d_months r = 0.
+Proof.
+  intros d k r E Y M H. apply floordiv_int_spec in H. destruct H as (K & A & B & C).
+  rewrite Y in *. rewrite M in *. rewrite Z.div_0_l in * by assumption. rewrite E in C.
+  repeat split; try assumption. rewrite C. unfold YM. ring.
+Qed.
+
+(* x / k : every part divided and rounded half to even *)
+Lemma truediv_int_spec : forall d k r, dur_truediv d (VInt k) = Ok (RDur r) ->
+  k <> 0 /\ d_years r = py_divide_and_round (d_years d) k /\ d_months r = py_divide_and_round (d_months d) k
+  /\ d_N r = py_divide_and_round (py_Duration_to_microseconds d) k
+             + YM (py_divide_and_round (d_years d) k) (py_divide_and_round (d_months d) k) * DAYUS.
+Proof.
+  intros d k r H. unfold dur_truediv in H. destruct (k =? 0) eqn:K; [discriminate|].
+  apply bind_RDur_inv in H. apply dur_new_native in H.
+  unfold py_Duration_truediv_int_microseconds, py_Duration_truediv_int_years, py_Duration_truediv_int_months in H. cbv zeta in H.
+  destruct H as (A & B & C). split; [apply Z.eqb_neq; exact K|]. repeat split; try assumption.
+  rewrite A. unfold DAYUS. ring.
+Qed.
+
+Lemma divide_and_round_zero : forall k, k <> 0 -> py_divide_and_round 0 k = 0.
+Proof.
+  intros k K. apply divide_and_round_characterised; [assumption|]. unfold nearest_even.
+  replace (0 - 0 * k) with 0 by ring. cbn [Z.abs Z.mul]. split; [lia|]. intros _. reflexivity.
+Qed.
+
+Lemma truediv_int_exact : forall d k r, exact0 d -> d_years d = 0 -> d_months d = 0 ->
+  dur_truediv d (VInt k) = Ok (RDur r) -> nearest_even (d_N d) k (d_N r) /\ d_years r = 0 /\ d_months r = 0.
+Proof.
+  intros d k r E Y M H. apply truediv_int_spec in H. destruct H as (K & A & B & C).
+  rewrite Y in *. rewrite M in *. rewrite divide_and_round_zero in * by assumption. rewrite E in C.
+  split; [|split; assumption].
+  replace (d_N r) with (py_divide_and_round (d_N d) k) by (rewrite C; unfold YM; ring).
+  apply divide_and_round_nearest; assumption.
+Qed.
+
+(* x * f for a float f = a / b (as_integer_ratio): the exact product rounded half to even; years and months are dropped *)
+Lemma mul_float_spec : forall d x r, dur_mul d (VFloat x) = Ok (RDur r) ->
+  exists a b, py_as_integer_ratio x = Ok (a, b)
+    /\ d_N r = py_divide_and_round (py_Duration_to_microseconds d * a) b /\ d_years r = 0 /\ d_months r = 0.
+Proof.
+  intros d x r H. unfold dur_mul in H. destruct (py_as_integer_ratio x) as [[a b]|e] eqn:R; [|discriminate].
+  cbn [bind] in H. apply bind_RDur_inv in H. apply dur_of_us_native in H.
+  unfold py_Duration_mul_float_microseconds in H. cbv zeta in H. exists a, b. split; [reflexivity | exact H].
+Qed.
+
+Lemma truediv_float_spec : forall d x r, dur_truediv d (VFloat x) = Ok (RDur r) ->
+  exists a b mo, py_as_integer_ratio x = Ok (a, b) /\ a <> 0 /\ divide_and_round_float (d_months d) x = Ok mo
+    /\ d_years r = py_divide_and_round (d_years d * b) a /\ d_months r = mo
+    /\ d_N r = py_divide_and_round (b * py_Duration_to_microseconds d) a + YM (d_years r) mo * DAYUS.
+Proof.
+  intros d x r H. unfold dur_truediv in H. destruct (py_as_integer_ratio x) as [[a b]|e] eqn:R; [|discriminate].
+  cbn [bind] in H. destruct (a =? 0) eqn:A0; [discriminate|].
+  destruct (divide_and_round_float (d_months d) x) as [mo|e] eqn:DM; [|discriminate]. cbn [bind] in H.
+  apply bind_RDur_inv in H. apply dur_new_native in H.
+  unfold py_Duration_truediv_float_microseconds, py_Duration_truediv_float_years in H. cbv zeta in H.
+  destruct H as (A & B & C). exists a, b, mo. repeat split; try assumption; try reflexivity.
+  - apply Z.eqb_neq; exact A0.
+  - rewrite A, B. unfold DAYUS. ring.
+Qed.
+
+(* ------------------------------------------------------------------ Part 4: division by a Duration agrees with timedelta's own operators *)
+(* "the same length": a Duration result against the plain-timedelta result of the native operation *)
+Definition same_length (r t : opres) : Prop :=
+  match r, t with
+  | RDur d, RTd n => d_N d = n
+  | RInt a, RInt b => a = b
+  | RFloat x, RFloat y => x = y
+  | RPair q d, RPairTd q' n => q = q' /\ d_N d = n
+  | _, _ => False
+  end.
+
+Lemma div_mod_by_duration_spec : forall m d d2 r, (m = 5 \/ m = 6 \/ m = 7 \/ m = 8) -> exact0 d -> exact0 d2 ->
+  dur_method m d (VDur d2) = Ok r ->
+  d_N d2 <> 0 /\ exists t, td_binop m (d_N d) (d_N d2) = Ok t /\ same_length r t.
+Proof.
+  intros m d d2 r Hm E1 E2 H. unfold exact0 in *.
+  destruct Hm as [-> | [-> | [-> | ->]]]; cbn [dur_method td_binop] in *.
+  - unfold dur_floordiv in H. rewrite E2 in H. destruct (d_N d2 =? 0) eqn:Z0; [discriminate|].
+    split; [apply Z.eqb_neq; exact Z0|]. eexists; split; [reflexivity|].
+    inversion H; subst. unfold py_Duration_floordiv_duration_value. cbv zeta. rewrite E1, E2. reflexivity.
+  - unfold dur_truediv in H. rewrite E1, E2 in H.
+    destruct (py_int_truediv (d_N d) (d_N d2)) as [x|e] eqn:T; [|discriminate]. cbn in H. inversion H; subst.
+    split; [intro Z0; rewrite Z0 in T; discriminate|]. eexists; split; [reflexivity|]. reflexivity.
+  - unfold dur_mod in H. rewrite E2 in H. destruct (d_N d2 =? 0) eqn:Z0; [discriminate|].
+    split; [apply Z.eqb_neq; exact Z0|]. eexists; split; [reflexivity|].
+    unfold py_Duration_mod_duration_microseconds in H. cbv zeta in H. rewrite E1, E2 in H.
+    destruct (dur_of_us (d_N d mod d_N d2)) as [r'|e] eqn:R; [|discriminate]. cbn in H. inversion H; subst.
+    apply dur_of_us_native in R. cbn. apply R.
+  - unfold dur_divmod in H. rewrite E2 in H. destruct (d_N d2 =? 0) eqn:Z0; [discriminate|].
+    split; [apply Z.eqb_neq; exact Z0|]. eexists; split; [reflexivity|].
+    unfold py_Duration_divmod_duration_microseconds, py_Duration_divmod_duration_quotient in H. cbv zeta in H. rewrite E1, E2 in H.
+    destruct (dur_of_us (d_N d mod d_N d2)) as [r'|e] eqn:R; [|discriminate]. cbn in H. inversion H; subst.
+    apply dur_of_us_native in R. cbn. split; [reflexivity | apply R].
+Qed.
+
+Lemma div_by_zero_duration : forall m d d2, (m = 5 \/ m = 6 \/ m = 7 \/ m = 8) -> py_Duration_to_microseconds d2 = 0 ->
+  dur_method m d (VDur d2) = Raise E_ZeroDivisionError.
+Proof.
+  intros m d d2 Hm E2.
+  destruct Hm as [-> | [-> | [-> | ->]]]; cbn [dur_method]; unfold dur_floordiv, dur_truediv, dur_mod, dur_divmod; rewrite E2; reflexivity.
+Qed.
+
+(* the defect: a PLAIN timedelta on the right of // / % divmod always raises AttributeError *)
+Lemma div_by_plain_timedelta_raises : forall m d n, (m = 5 \/ m = 6 \/ m = 7 \/ m = 8) ->
+  dur_method m d (VTd n) = Raise E_AttributeError.
+Proof. intros m d n Hm. destruct Hm as [-> | [-> | [-> | ->]]]; reflexivity. Qed.
+
+(* ------------------------------------------------------------------ Part 5: + - and int * (through float seconds) *)
+Definition B31 : Z := 2147483648000000.   (* 2^31 * 10^6 *)
+
+(* The float premises (NOT proved; validated on every run by the pairs-add / pairs-sub / pairs-mul / band-* streams):
+   timedelta(seconds = ts(a) +- ts(b)) and timedelta(seconds = ts(R) * k) are exact while operands and result are below 2^31 s. *)
+Definition addsub_float_exact : Prop := forall a b, Z.abs a < B31 -> Z.abs b < B31 ->
+  (Z.abs (a + b) < B31 -> td_us_of_float_seconds (fadd (total_seconds a) (total_seconds b)) = Ok (a + b))
+  /\ (Z.abs (a - b) < B31 -> td_us_of_float_seconds (fsub (total_seconds a) (total_seconds b)) = Ok (a - b)).
+Definition mul_float_exact : Prop := forall R k fk, Z.abs R < B31 -> Z.abs (k * R) < B31 -> py_float_of_int k = Ok fk ->
+  td_us_of_float_seconds (fmul (total_seconds R) fk) = Ok (k * R).
+
+(* the native length of a timedelta-like operand *)
+Definition native_len (o : value) : option Z :=
+  match o with VDur d | VIvl d => Some (d_N d) | VTd n => Some n | _ => None end.
+
+Lemma dur_of_fsec_inv : forall x r, dur_of_fsec x = Ok r -> td_us_of_float_seconds x = Ok (d_N r) /\ d_years r = 0 /\ d_months r = 0.
+Proof.
+  intros x r H. unfold dur_of_fsec in H. apply duration_new_fsec_inv in H. destruct H as (n0 & A & B & C & D).
+  unfold YM in B. replace (n0 + (0 * 365 + 0 * 30) * DAYUS) with n0 in B by ring. rewrite B. auto.
+Qed.
+
+Section FloatPremises.
+  Hypothesis Haddsub : addsub_float_exact.
+  Hypothesis Hmul : mul_float_exact.
+
+  Lemma add_exact_partial : forall d o n2 r, native_len o = Some n2 ->
+    Z.abs (d_N d) < B31 -> Z.abs n2 < B31 -> Z.abs (d_N d + n2) < B31 ->
+    dur_add d o = Ok (RDur r) -> d_N r = d_N d + n2 /\ d_years r = 0 /\ d_months r = 0.
+  Proof.
+    intros d o n2 r Hn A B C H.
+    assert (T : other_total_seconds o = Some (total_seconds n2)) by (destruct o; cbn in Hn |- *; inversion Hn; reflexivity).
+    unfold dur_add in H. rewrite T in H. apply bind_RDur_inv in H. apply dur_of_fsec_inv in H. destruct H as (H & Y & M).
+    destruct (Haddsub _ _ A B) as [P _]. rewrite (P C) in H. inversion H. auto.
+  Qed.
+
+  Lemma sub_exact_partial : forall d o n2 r, native_len o = Some n2 ->
+    Z.abs (d_N d) < B31 -> Z.abs n2 < B31 -> Z.abs (d_N d - n2) < B31 ->
+    dur_sub d o = Ok (RDur r) -> d_N r = d_N d - n2 /\ d_years r = 0 /\ d_months r = 0.
+  Proof.
+    intros d o n2 r Hn A B C H.
+    assert (T : other_total_seconds o = Some (total_seconds n2)) by (destruct o; cbn in Hn |- *; inversion Hn; reflexivity).
+    unfold dur_sub in H. rewrite T in H. apply bind_RDur_inv in H. apply dur_of_fsec_inv in H. destruct H as (H & Y & M).
+    destruct (Haddsub _ _ A B) as [_ P]. rewrite (P C) in H. inversion H. auto.
+  Qed.
+
+  (* a Duration without years / months stores _total = total_seconds() *)
+  Lemma mul_int_exact_partial : forall d k r, d_years d = 0 -> d_months d = 0 -> d_total d = total_seconds (d_N d) ->
+    Z.abs (d_N d) < B31 -> Z.abs (k * d_N d) < B31 ->
+    dur_mul d (VInt k) = Ok (RDur r) -> d_N r = k * d_N d /\ d_years r = 0 /\ d_months r = 0.
+  Proof.
+    intros d k r Y M T A B H. unfold dur_mul in H.
+    destruct (py_float_of_int k) as [fk|e] eqn:F; [|discriminate]. cbn [bind] in H.
+    apply bind_RDur_inv in H. apply duration_new_fsec_inv in H. destruct H as (n0 & H & N & Y' & M').
+    unfold py_Duration_mul_int_years, py_Duration_mul_int_months in *. rewrite Y, M in *.
+    rewrite T, (Hmul _ _ _ A B F) in H. inversion H; subst n0.
+    repeat split; [|lia|lia]. rewrite N. unfold YM. ring.
+  Qed.
+End FloatPremises.
+
+(* int scaling acts component-wise on years and months (no premise) *)
+Lemma mul_int_years_months : forall d k r, dur_mul d (VInt k) = Ok (RDur r) ->
+  d_years r = d_years d * k /\ d_months r = d_months d * k
+  /\ exists n0, d_N r = n0 + YM (d_years d * k) (d_months d * k) * DAYUS.
+Proof.
+  intros d k r H. unfold dur_mul in H.
+  destruct (py_float_of_int k) as [fk|e] eqn:F; [|discriminate]. cbn [bind] in H.
+  apply bind_RDur_inv in H. apply duration_new_fsec_inv in H. destruct H as (n0 & H & N & Y' & M').
+  unfold py_Duration_mul_int_years, py_Duration_mul_int_months in *. repeat split; try assumption. exists n0. exact N.
+Qed.
+
+(* construction without years / months: _total is total_seconds() *)
+Lemma dur_new_total0 : forall d s us ms mi h w r, duration_new d s us ms mi h w 0 0 = Ok r -> d_total r = total_seconds (d_N r).
+Proof.
+  intros until r. intro H. unfold duration_new in H.
+  destruct (td_of_int_args _ _ _ _ _ _ _) as [N|e] eqn:T; [|discriminate]. cbn [bind] in H.
+  unfold float_pipeline in H. replace ((0 * DAYS_PER_Y + 0 * DAYS_PER_M) * C_SECONDS_PER_DAY) with 0 in H by reflexivity.
+  change (py_float_of_int 0) with (Ok (S754_zero false)) in H. cbn [bind] in H. rewrite fsub_zero_r in H.
+  destruct (split_total (total_seconds N)) as [[[m micro] it]|e] eqn:S; [|discriminate]. cbn [bind] in H.
+  inversion H; subst. reflexivity.
+Qed.
+
+(* the unbounded statement is false: at 2^31 s the float sum loses a microsecond *)
+Lemma add_exact_refuted : exists d1 d2 r,
+  dur_of_us (-2164598863760106) = Ok d1 /\ dur_of_us 2138816986554400 = Ok d2 /\ exact0 d1 /\ exact0 d2
+  /\ dur_add d1 (VDur d2) = Ok (RDur r) /\ d_N r <> d_N d1 + d_N d2 /\ Z.abs (d_N d1 + d_N d2) < B31.
+Proof.
+  eexists. eexists. eexists.
+  split; [vm_compute; reflexivity|]. split; [vm_compute; reflexivity|].
+  split; [vm_compute; reflexivity|]. split; [vm_compute; reflexivity|].
+  split; [vm_compute; reflexivity|]. split; [vm_compute; discriminate | vm_compute; reflexivity].
+Qed.
+
+Lemma mul_int_exact_refuted : exists d r,
+  dur_of_us (-4433329909397) = Ok d /\ exact0 d /\ dur_mul d (VInt 617) = Ok (RDur r) /\ d_N r <> 617 * d_N d.
+Proof.
+  eexists. eexists.
+  split; [vm_compute; reflexivity|]. split; [vm_compute; reflexivity|].
+  split; [vm_compute; reflexivity|]. vm_compute; discriminate.
+Qed.
+
+(* the premises hold on samples (kernel computation) *)
+Lemma addsub_float_exact_samples :
+  Forall (fun p => td_us_of_float_seconds (fadd (total_seconds (fst p)) (total_seconds (snd p))) = Ok (fst p + snd p)
+                   /\ td_us_of_float_seconds (fsub (total_seconds (fst p)) (total_seconds (snd p))) = Ok (fst p - snd p))
+         [(1, 2); (-1, 1); (999999, 1); (100000, 200000); (1073741823999999, 1073741823999999); (-1073741823999999, 1); (86400000000, -1);
+          (2147483647999999, -2147483647999998); (1500000, -2500001); (3, 1000000000000000)].
+Proof. repeat constructor; vm_compute; reflexivity. Qed.
+
+(* ------------------------------------------------------------------ Part 6: the defect — division by a plain timedelta *)
+Lemma div_by_timedelta_refuted :
+  ~ (forall m d n t, (m = 5 \/ m = 6 \/ m = 7 \/ m = 8) -> exact0 d -> td_binop m (d_N d) n = Ok t ->
+       exists r, dur_method m d (VTd n) = Ok r /\ same_length r t).
+Proof.
+  intro H.
+  destruct (duration_new 3 0 0 0 0 0 0 0 0) as [d|e] eqn:E; [|vm_compute in E; discriminate].
+  assert (X : exact0 d /\ d_N d = 259200000000) by (vm_compute in E; inversion E; subst; split; reflexivity).
+  destruct X as [X N].
+  destruct (H 5 d 18000000000 (RInt 14) (or_introl eq_refl) X) as (r & R & _).
+  - rewrite N. reflexivity.
+  - cbn in R. discriminate.
 Qed.
